@@ -345,6 +345,36 @@ def run_sha256(case):
             pk = open(base + ".pack", "rb").read()
             ix = open(base + ".idx", "rb").read()
             verify_pack_bytes(pk, ix, src if len(packs) == 1 else None, None, 32, viol, "sha256") if len(packs) == 1 else None
+        # the same pack bytes streamed (as a fetch delivers them) into a second, empty sha256 store: the reader side names every
+        # object itself from the stream, writes its own index, and must list and return exactly the same objects
+        if len(packs) == 1:
+            d2 = d + ".streamed"
+            try:
+                r2 = Repo.init_bare(d2, mkdir=True, object_format="sha256")
+                try:
+                    if rng.random() < 0.5:
+                        pkts = Packets(pk, rng.choice([19, 21, 24, 33, 57, 100, 120]))
+                        r2.object_store.add_thin_pack(pkts.read_all, pkts.read_some)
+                    else:
+                        r2.object_store.add_thin_pack(io.BytesIO(pk).read, None)
+                    stats["sha256_streamed_ingests"] = 1
+                    got2 = set(r2.object_store)
+                    if got2 != set(src):
+                        viol.append({"sig": "C02/sha256/streamed-ingest/store-lists-different-ids", "extra": len(got2 - set(src)), "missing": len(set(src) - got2)})
+                    else:
+                        for i in rng.sample(sorted(src), min(5, len(src))):
+                            o = r2.object_store[i]
+                            if (o.type_name, o.as_raw_string()) != src[i]:
+                                viol.append({"sig": "C02/sha256/streamed-ingest/lookup-returns-other-object"})
+                finally:
+                    r2.close()
+                fs2 = core.git(["fsck", "--full", "--strict"], cwd=d2, check=False)
+                if fs2.returncode not in (0,) and b"missing" not in fs2.stderr + fs2.stdout:
+                    viol.append({"sig": "C02/sha256/streamed-ingest/git-fsck-rejects", "err": (fs2.stderr + fs2.stdout).decode(errors="replace")[-300:]})
+            except Exception as e:
+                viol.append({"sig": "C02/sha256/streamed-ingest/raises-%s" % type(e).__name__, "msg": str(e)[:150]})
+            finally:
+                shutil.rmtree(d2, ignore_errors=True)
         fs = core.git(["fsck", "--full", "--strict"], cwd=d, check=False)
         stats["git_index_pack"] = stats.get("git_index_pack", 0) + 1
         if fs.returncode not in (0,) and b"missing" not in fs.stderr + fs.stdout:
@@ -670,28 +700,36 @@ def run_reindex(case):
                 git_verify(base, src, 2, viol, "reindex/create_index-v2/level%d" % level, stats)
             os.unlink(base + ".idx")
         # the object store's ingestion path
-        sd = os.path.join(d, "store")
-        os.makedirs(os.path.join(sd, "pack"))
-        store = DiskObjectStore(sd)
-        try:
-            f, commit, abort = store.add_pack()
-            f.write(pk)
-            commit()
-            stats["add_pack_commits"] = stats.get("add_pack_commits", 0) + 1
-            names = [x[:-5] for x in os.listdir(os.path.join(sd, "pack")) if x.endswith(".pack")]
-            for nm in names:
-                b2 = os.path.join(sd, "pack", nm)
-                verify_pack_bytes(open(b2 + ".pack", "rb").read(), open(b2 + ".idx", "rb").read(), src, None, 20, viol, "reindex/add_pack/level%d" % level)
-                git_verify(b2, src, 2, viol, "reindex/add_pack/level%d" % level, stats)
-            for i in src:
-                o = store[i]
-                if (o.type_name, o.as_raw_string()) != src[i]:
-                    viol.append({"sig": "C02/reindex/add_pack/lookup-differs"})
-                    break
-        except Exception as e:
-            viol.append({"sig": "C02/reindex/add_pack-raises-%s" % type(e).__name__, "msg": str(e)[:150]})
-        finally:
-            store.close()
+        import dulwich.pack as DP
+        for mm in (True, False):
+            # with memory mapping, and through the plain-read fallback the library takes where mmap is unavailable
+            mtag = "" if mm else "/no-mmap"
+            sd = os.path.join(d, "store" + ("" if mm else "-nommap"))
+            os.makedirs(os.path.join(sd, "pack"))
+            store = DiskObjectStore(sd)
+            saved_mm = DP.has_mmap
+            DP.has_mmap = mm and saved_mm
+            try:
+                f, commit, abort = store.add_pack()
+                f.write(pk)
+                commit()
+                stats["add_pack_commits" + mtag.replace("/", "_")] = stats.get("add_pack_commits" + mtag.replace("/", "_"), 0) + 1
+                names = [x[:-5] for x in os.listdir(os.path.join(sd, "pack")) if x.endswith(".pack")]
+                for nm in names:
+                    b2 = os.path.join(sd, "pack", nm)
+                    verify_pack_bytes(open(b2 + ".pack", "rb").read(), open(b2 + ".idx", "rb").read(), src, None, 20, viol, "reindex/add_pack%s/level%d" % (mtag, level))
+                    if mm:
+                        git_verify(b2, src, 2, viol, "reindex/add_pack/level%d" % level, stats)
+                for i in src:
+                    o = store[i]
+                    if (o.type_name, o.as_raw_string()) != src[i]:
+                        viol.append({"sig": "C02/reindex/add_pack%s/lookup-differs" % mtag})
+                        break
+            except Exception as e:
+                viol.append({"sig": "C02/reindex/add_pack%s-raises-%s" % (mtag, type(e).__name__), "msg": str(e)[:150]})
+            finally:
+                DP.has_mmap = saved_mm
+                store.close()
         nt.add("ri:l%d:%s" % (level, ",".join(str(x) for x in case["sizes"][:3])))
     finally:
         shutil.rmtree(d, ignore_errors=True)
